@@ -204,3 +204,41 @@ func verifHarness_C08_get() {
 	}
 	verifAssert(verifImplies(verifAnd(!found, q != 0), !ok), "get-misses-deleted-or-unknown-batch")
 }
+
+// Delete is atomic with respect to readers: while compaction deletes a batch,
+// readers (Get, and GetNext on its fast path) run at every point where Delete
+// holds no lock at all; once Delete has returned, the batch is gone for every
+// later lookup — no reader may have put it back into the cache.
+func verifHarness_C08_delete() {
+	s := vNewStream()
+	n := verifCase(verifParam("initial", 2)) + 2
+	for k := 0; k < n; k++ {
+		s.add()
+	}
+	victim := s.ids[1] // compaction deletes the oldest batch
+	warm := nondetBool()
+	if warm {
+		s.os.Get(robust.Id{Id: victim}) // the batch may or may not be cached already
+	}
+	reads := 0
+	verifSetEnv(func() {
+		// a reader runs between two lock sections of Delete
+		for reads < verifParam("env", 2) && verifCase(3) > 0 {
+			reads++
+			if verifCase(2) == 0 {
+				s.os.Get(robust.Id{Id: victim})
+			} else {
+				s.os.GetNext(s.ctx, robust.Id{Id: 0}) // successor of the initial batch: the victim, on the fast path
+			}
+		}
+	}, func() {})
+	verifCaseLabel("delete-under-readers")
+	if err := s.os.Delete(robust.Id{Id: victim}); err != nil {
+		verifAssert(false, "delete-no-error")
+	}
+	verifSetEnv(func() {}, func() {})
+	_, ok := s.os.Get(robust.Id{Id: victim})
+	verifAssert(!ok, "deleted-batch-is-gone-for-later-lookups")
+	next := s.os.GetNext(s.ctx, robust.Id{Id: 0})
+	verifAssert(len(next) > 0 && next[0].Id.Id == s.ids[2], "successor-after-delete-is-the-next-stored-batch")
+}
